@@ -5,43 +5,45 @@
 mod verif_c18_multi {
     use super::verif_rig_multi::*;
     use super::*;
-    use crate::draw_target::verif_scr::*;
+    use crate::draw_target::verif_rig_dt::*;
     use crate::verif_common::*;
 
-    fn setup() -> (&'static Scr, MultiState) {
-        let scr = leak_scr(4, 6);
-        let mut ms = rig_multi(scr_target(scr));
-        push_member(&mut ms, true, 1, b'A', false);
-        push_member(&mut ms, true, 1, b'B', false);
-        (scr, ms)
+    fn setup() -> MultiState {
+        unsafe {
+            SLEN = 0;
+            DRAWS = 0;
+            LOG_FLOOR = 0;
+            FAIL_DRAW_AT = usize::MAX;
+        }
+        let mut ms = rig_multi(null_target(4, 6, 0));
+        let mut i = 0;
+        while i < 2 {
+            let mut d = DrawState::default();
+            d.lines = Vec::with_capacity(2);
+            d.lines.push(LineType::Bar(String::from(if i == 0 { "A" } else { "B" })));
+            ms.members.push(MultiStateMember { draw_state: Some(d), is_zombie: false });
+            ms.ordering.push(i);
+            i += 1;
+        }
+        ms
     }
 
-    fn arm(scr: &Scr) -> usize {
-        let k: usize = kani::any();
-        kani::assume(k <= 15);
-        let sticky: bool = kani::any();
-        scr.fail_at.set(scr.calls.get() + k);
-        scr.fail_sticky.set(sticky);
-        k
-    }
-
-    // @harness id=C18 tier=quick timeout=3000 mem=14
-    // @bounds MultiState with 2 drawn members: one of println / clear / suspend / member-draw with the k-th terminal call failing (k <= 15, once or from then on), then a follow-up println with a healthy terminal: no panic; println/clear report the error iff a call failed; the follow-up works
-    #[kani::proof]
-    #[kani::unwind(20)]
-    //@STUBS std now widthascii repeat noterm rlany noweight
-    fn c18_multi_fault_no_panic() {
-        let (scr, mut ms) = setup();
+    /// op: 0 println-draw, 1 clear, 2 suspend, 3 forced draw; k: index (relative to the operation) of the failing draw_to_term
+    fn multi_op(op: u8, k: usize) {
+        let mut ms = setup();
         let now = mk_instant(1_000_000, 0);
-        // first a healthy frame so that there is something on screen to erase
         assert!(ms.draw(true, None, now).is_ok());
-        let k = arm(scr);
-        let before = scr.calls.get();
-        let op: u8 = kani::any();
-        kani::assume(op < 4);
-        let mut reported = true;
+        let base = unsafe { DRAWS };
+        unsafe {
+            FAIL_DRAW_AT = base + k;
+        }
+        let mut reported = false;
         match op {
-            0 => reported = ms.println("xy", now).is_err(),
+            0 => {
+                let mut lines: Vec<LineType> = Vec::with_capacity(1);
+                lines.push(LineType::Text(String::from("x")));
+                reported = ms.draw(true, Some(lines), now).is_err();
+            }
             1 => reported = ms.clear(now).is_err(),
             2 => {
                 let r = ms.suspend(|| 7, now);
@@ -49,19 +51,60 @@ mod verif_c18_multi {
             }
             _ => reported = ms.draw(true, None, now).is_err(),
         }
-        let made = scr.calls.get() - before;
+        let made = unsafe { DRAWS } - base;
         if op != 2 {
-            // the error is surfaced exactly when the failing call was reached
-            assert!(reported == (k < made));
+            assert!(reported == (k < made)); // io::Result-returning calls report the error
         }
-        // healthy again: a following operation on the same MultiProgress works
-        scr.fail_at.set(usize::MAX);
-        scr.fail_sticky.set(false);
-        assert!(ms.println("z", now).is_ok());
+        unsafe {
+            FAIL_DRAW_AT = usize::MAX;
+        }
+        assert!(ms.draw(true, None, now).is_ok());
         assert!(ordering_len(&ms) == 2);
-        kani::cover!(op == 2 && k == 0);
-        kani::cover!(op == 0 && reported);
-        kani::cover!(op == 1 && !reported);
         std::mem::forget(ms);
+    }
+
+    // @harness id=C18 tier=thorough timeout=3400 mem=16 checks=rust
+    // @bounds MultiState with 2 drawn members: println whose draw number 0 fails, then a healthy forced draw: no panic, io::Result-returning calls report the error, the follow-up works
+    #[kani::proof]
+    #[kani::unwind(6)]
+    //@STUBS std now widthascii noterm rlany noweight dttcontract rows1 lineclone noremove norwlock
+    fn c18_multi_println_fail0() {
+        multi_op(0, 0);
+    }
+
+    // @harness id=C18 tier=thorough timeout=3400 mem=16 checks=rust
+    // @bounds MultiState with 2 drawn members: clear whose draw number 0 fails, then a healthy forced draw: no panic, io::Result-returning calls report the error, the follow-up works
+    #[kani::proof]
+    #[kani::unwind(6)]
+    //@STUBS std now widthascii noterm rlany noweight dttcontract rows1 lineclone noremove norwlock
+    fn c18_multi_clear_fail0() {
+        multi_op(1, 0);
+    }
+
+    // @harness id=C18 tier=thorough timeout=3400 mem=16 checks=rust
+    // @bounds MultiState with 2 drawn members: suspend whose draw number 0 fails, then a healthy forced draw: no panic, io::Result-returning calls report the error, the follow-up works
+    #[kani::proof]
+    #[kani::unwind(6)]
+    //@STUBS std now widthascii noterm rlany noweight dttcontract rows1 lineclone noremove norwlock
+    fn c18_multi_suspend_fail0() {
+        multi_op(2, 0);
+    }
+
+    // @harness id=C18 tier=thorough timeout=3400 mem=16 checks=rust
+    // @bounds MultiState with 2 drawn members: suspend whose draw number 1 fails, then a healthy forced draw: no panic, io::Result-returning calls report the error, the follow-up works
+    #[kani::proof]
+    #[kani::unwind(6)]
+    //@STUBS std now widthascii noterm rlany noweight dttcontract rows1 lineclone noremove norwlock
+    fn c18_multi_suspend_fail1() {
+        multi_op(2, 1);
+    }
+
+    // @harness id=C18 tier=thorough timeout=3400 mem=16 checks=rust
+    // @bounds MultiState with 2 drawn members: forced_draw whose draw number 0 fails, then a healthy forced draw: no panic, io::Result-returning calls report the error, the follow-up works
+    #[kani::proof]
+    #[kani::unwind(6)]
+    //@STUBS std now widthascii noterm rlany noweight dttcontract rows1 lineclone noremove norwlock
+    fn c18_multi_forced_draw_fail0() {
+        multi_op(3, 0);
     }
 }
